@@ -137,9 +137,9 @@ var optabSpecs = []optabSpec{
 		"NumericModulo":   {"math.Mod(L, R)"},
 	}},
 	{fn: "jsonata.evalComparisonOperator", enum: "ComparisonOperator", want: map[string][]string{
-		"ComparisonIn":           {"jsonata.in(L, R)"},
-		"ComparisonEqual":        {"jsonata.eq(L, R)"},
-		"ComparisonNotEqual":     {"!jsonata.eq(L, R)"},
+		"ComparisonIn":       {"jsonata.in(L, R)"},
+		"ComparisonEqual":    {"jsonata.eq(L, R)"},
+		"ComparisonNotEqual": {"!jsonata.eq(L, R)"},
 		// lte(a, b) may be spelled out as what it is defined to be: lt(a, b) || eq(a, b)
 		"ComparisonLess":         {"jsonata.lt(L, R)", "!jsonata.lte(R, L)", "!(jsonata.lt(R, L) || jsonata.eq(R, L))"},
 		"ComparisonLessEqual":    {"jsonata.lte(L, R)", "!jsonata.lt(R, L)", "(jsonata.lt(L, R) || jsonata.eq(L, R))"},
